@@ -306,7 +306,8 @@ func c18HTML(shape string, n int) {
 		if shape == "table" {
 			want = 2
 		}
-		sym.Assert(c == want, "text-decodes-to-the-string")
+		// >=: fixed cells of the rendering (index column "1.", marker texts) may spell the same text
+		sym.Assert(c >= want, "text-decodes-to-the-string")
 	}
 	if wantAttr != "" {
 		var c int64
